@@ -42,6 +42,7 @@ var mains = map[string]func(map[string]string){
 	"c13": c13Main,
 	"c19": c19Main,
 	"c20": c20Main,
+	"x01": x01Main,
 }
 
 var startAt int // first case index the worker executes
